@@ -66,6 +66,11 @@ def variants():
     V["measx"] = dict(meas_pt=(30.0, 30.0))
     V["measy"] = dict(meas_pt=(20.0, 45.0))
     V["bg"] = dict(srf_bg_conc=3.0)
+    # backgrounds in trace-gas units: they differ from each other and from the base request only beyond the sixth decimal
+    V["bg-trace-a"] = dict(srf_bg_conc=4.0e-7)
+    V["bg-trace-b"] = dict(srf_bg_conc=4.2e-7)
+    # a halo a hair below two cells: int(halo/dx) = 1 where the base request's 20 m gives 2
+    V["halo-hair-below"] = dict(halo=19.9999999)
     V["analytic"] = dict(analytic=True)
     V["halo30"] = dict(halo=30.0)
     V["haloNone"] = dict(halo=None)
